@@ -336,3 +336,205 @@ Proof.
       destruct Hi as [Hi | [] ]; injection Hi as Hk Hi'; subst k i; vm_compute; repeat split; auto 10.
     + exfalso. injection E as E1 E2 E3 E4. destruct pre; discriminate.
 Qed.
+
+(** * (d) The production entry point
+
+    Production does not call [recovery] on a wallet at height 0 with a
+    birthday block handed in: handleChainNotifications, on ClientConnected,
+    runs birthdaySanityCheck and syncWithChain.  For a wallet restored from
+    seed no birthday block is stored, so syncWithChain locates it on the
+    backend's chain, stores it as synced-to AND as verified birthday block,
+    and recovery then scans from synced-to + 1 ([startup], [first_start] in
+    Recovery.v).  Every later start finds the stored block and resumes from
+    the stored synced-to height.
+
+    The exact boundary: the blocks scanned are those STRICTLY AFTER the
+    located birthday block, heights b+1 .. tip ([blocks_after b chain]); the
+    located block itself is never scanned.  That loses nothing the property
+    promises: the located block is the genesis block or is stamped no later
+    than the stored birthday + 2h, hence is not a block that could pay the
+    wallet, and the first scanned block b+1 is still not later than the first
+    block that could (C16_first_scanned_block_not_late). *)
+
+(** [blocks_after b chain] is the chain without its first [b] blocks,
+    numbered from height b+1: each later block once, in chain order. *)
+Theorem C16_blocks_after_unfold :
+  forall b (chain : list block),
+    blocks_after b chain = number_from (b + 1) (skipn (N.to_nat b) chain).
+Proof. exact (blocks_after_numbered no_inv 0 (fun _ _ _ H => False_ind _ (Bool.diff_false_true H))). Qed.
+Print Assumptions C16_blocks_after_unfold.
+
+(** One run of [recovery] is: resurrect the recovery state, then for every
+    entry of [loop_flushes] - which depends on the heights, the batch size
+    and the birthday height only - recover that batch and set synced-to. *)
+Theorem C16_recovery_run_is_fold_of_flushes :
+  forall invalid_child inv_bound scopes w bs bday best chain p,
+    recovery invalid_child inv_bound scopes w bs bday best chain p =
+    snd (fold_left (flush invalid_child inv_bound scopes)
+           (loop_flushes (heights_to_scan chain (p_synced p) best) best bs bday [])
+           (resurrect invalid_child scopes w p, p)).
+Proof. intros. unfold recovery. f_equal. apply recovery_loop_flushes. Qed.
+Print Assumptions C16_recovery_run_is_fold_of_flushes.
+
+(** The batches of one run from synced-to height [synced] (at least the
+    birthday height - 1, as it always is once syncWithChain has stored the
+    birthday block as synced-to), concatenated in flushing order, are exactly
+    the blocks at heights synced+1 .. best: every block once, in order, none
+    skipped, for every batch size. *)
+Theorem C16_run_scans_each_later_block_once_in_order :
+  forall (bs : nat) (bday best : N) (chain : list block) (synced : N),
+    bday <= synced + 1 -> best <= N.of_nat (length chain) ->
+    concat (map snd (loop_flushes (heights_to_scan chain synced best) best bs bday [])) =
+    firstn (N.to_nat (best - synced)) (blocks_after synced chain).
+Proof. exact (run_scans no_inv 0 (fun _ _ _ H => False_ind _ (Bool.diff_false_true H))). Qed.
+Print Assumptions C16_run_scans_each_later_block_once_in_order.
+
+(** ... and over all starts (synced-to follows the maximum of the heights the
+    chain had, [runs_scanned]) the scanned blocks are exactly the blocks
+    after the height synced-to started at - for the first start of a restored
+    wallet, the located birthday block. *)
+Theorem C16_all_runs_scan_exactly_the_blocks_after :
+  forall (bs : nat) (bday : N) (chain : list block) (cuts : list N) (synced : N),
+    bday <= synced + 1 ->
+    (forall c, In c cuts -> c <= N.of_nat (length chain)) ->
+    fold_left N.max cuts synced = N.of_nat (length chain) ->
+    runs_scanned bs bday cuts chain synced = blocks_after synced chain.
+Proof. exact (runs_scanned_all no_inv 0 (fun _ _ _ H => False_ind _ (Bool.diff_false_true H))). Qed.
+Print Assumptions C16_all_runs_scan_exactly_the_blocks_after.
+
+(** Completeness from the production entry.  [ts] = block timestamps by
+    height, [birthday] the stored birthday; the wallet is first started when
+    the chain is [c0] blocks long (the search then returns height [b]) and
+    again at each height of [cuts], the last start seeing the whole chain.
+    If the blocks after [b] satisfy the look-ahead hypothesis, the start-ups
+    succeed, store [b] as birthday block, and end with every path paid after
+    block [b] discovered and used, the recorded transactions and unspent
+    outputs those of the ledger of the blocks after [b], each branch's next
+    index above every paid index, and the wallet synced to the tip. *)
+Theorem C16_first_sync_recovery_complete :
+  forall (invalid_child : scope -> bool -> index -> bool) (inv_bound : N),
+    (forall s b i, invalid_child s b i = true -> i < inv_bound) ->
+  forall scopes : list scope, NoDup scopes ->
+  forall (W : N) (bs : nat) (ts : list Z) (birthday : Z) (chain : list block)
+         (c0 : N) (cuts : list N) (hz : Z),
+    locate_birthday (firstn (S (N.to_nat c0)) ts) birthday = Some hz ->
+    let b := Z.to_N hz in
+    let all := blocks_after b chain in
+    within_window invalid_child scopes W all ->
+    chain_wf all ->
+    (forall c, In c (c0 :: cuts) -> c <= N.of_nat (length chain)) ->
+    In (N.of_nat (length chain)) (c0 :: cuts) ->
+    exists p,
+      startups invalid_child inv_bound scopes W bs ts birthday (c0 :: cuts) chain fresh_wstate =
+        Some {| w_bblock := Some b; w_p := p |} /\
+      b <= c0 /\
+      (forall x k, In x all -> In k (block_keys (snd x)) ->
+         In k (p_used p) /\ Recovery.known invalid_child scopes p k = true) /\
+      (p_txs p, p_unspent p) = ledger (txs_of all) /\
+      (forall k, In (fst k) scopes -> get_next k p = found_before k all) /\
+      (forall x k i, In x all -> In i (paid_on k (snd x)) -> i < get_next k p) /\
+      p_synced p = N.of_nat (length chain).
+Proof. exact startups_complete. Qed.
+Print Assumptions C16_first_sync_recovery_complete.
+
+(** The search always returns a block ([C16_birthday_search_total]), so the
+    premise [locate_birthday ... = Some hz] only names its result. *)
+
+(** The first block scanned from the production entry, b+1, is not later
+    than any block after genesis stamped later than birthday + 2h, also when
+    the search ran on a chain that ended at height [c0] and grew afterwards
+    (timestamps non-decreasing). *)
+Theorem C16_first_scanned_block_not_late :
+  forall ts bday (c0 : nat) h,
+    monotone_ts ts ->
+    locate_birthday (firstn (S c0) ts) bday = Some h ->
+    (h <= Z.of_nat c0)%Z /\
+    forall j, (1 <= j < Z.of_nat (length ts))%Z ->
+      (bday + birthday_block_delta < ts_at ts j)%Z -> (h + 1 <= j)%Z.
+Proof. exact first_scanned_not_late_truncated. Qed.
+Print Assumptions C16_first_scanned_block_not_late.
+
+(** End to end from the production entry: the balance the transaction store
+    reports after the start-ups is the ledger balance of the blocks after the
+    located birthday block (hypotheses as in (c), over [blocks_after b]). *)
+Theorem C16_first_sync_balance_is_ledger_balance :
+  forall (invalid_child : scope -> bool -> index -> bool) (inv_bound : N),
+    (forall s b i, invalid_child s b i = true -> (i < inv_bound)%N) ->
+  forall scopes : list scope, List.NoDup scopes ->
+  forall (W : N) (bs : nat) (ts : list Z) (birthday : Z) (chain : list block)
+         (c0 : N) (cuts : list N) (hz : Z) (cb : N -> bool),
+    locate_birthday (firstn (S (N.to_nat c0)) ts) birthday = Some hz ->
+    let b := Z.to_N hz in
+    let all := blocks_after b chain in
+    within_window invalid_child scopes W all ->
+    chain_txs_wf cb (txs_of all) ->
+    (forall c, In c (c0 :: cuts) -> (c <= N.of_nat (length chain))%N) ->
+    In (N.of_nat (length chain)) (c0 :: cuts) ->
+    exists p,
+      startups invalid_child inv_bound scopes W bs ts birthday (c0 :: cuts) chain fresh_wstate =
+        Some {| w_bblock := Some b; w_p := p |} /\
+      let U := universe_of cb (txs_of all) in
+      let H := history_of (p_txs p) in
+      let tip := Z.of_nat (length chain) in
+      wf_universe U = true /\ chain_consistent U H = true /\
+      balance U (st (run U H)) 1 tip (clock (run U H)) =
+        spec_balance U (fs (spec_run U H)) 1 tip (clock (run U H)) /\
+      spec_balance U (fs (spec_run U H)) 1 tip (clock (run U H)) =
+        mature_sum cb (p_txs p) tip (p_unspent p).
+Proof. exact first_sync_balance_is_ledger_balance. Qed.
+Print Assumptions C16_first_sync_balance_is_ledger_balance.
+
+(** Non-vacuity and exactness of the boundary.  Timestamps: blocks 0..2 lie
+    more than 2h before the birthday (100000), blocks 3..5 more than 2h
+    after; the search returns block 2.  Block 2 (the birthday block) pays
+    external index 0, block 3 - the first block scanned - pays index 1,
+    block 5 spends that output with change.  W = 2, batch size 2, first start
+    at height 4, second at 5.  The payment in block 2 is not found (it is not
+    promised: block 2 is stamped before the birthday); everything after is. *)
+Definition sync_ts : list Z := [0; 600; 1200; 200000; 200600; 201200]%Z.
+Definition sync_chain : list block :=
+  [ []; [ {| Recovery.t_id := 1; Recovery.t_ins := [(100, 0)]; Recovery.t_outs := [pay (0, false, 0) 111] |} ];
+    [ {| Recovery.t_id := 2; Recovery.t_ins := [(101, 0)]; Recovery.t_outs := [pay (0, false, 1) 5000] |} ];
+    [];
+    [ {| Recovery.t_id := 3; Recovery.t_ins := [(2, 0)]; Recovery.t_outs := [other 4000; pay (0, true, 0) 900] |} ] ]%N.
+
+Example C16_first_sync_nonvacuous :
+  locate_birthday (firstn 5 sync_ts) 100000%Z = Some 2%Z /\
+  match startups no_inv 0 ex_scopes 2 2 sync_ts 100000%Z [4; 5] sync_chain fresh_wstate with
+  | Some ws =>
+      w_bblock ws = Some 2 /\
+      p_used (w_p ws) = [(0, true, 0); (0, false, 1)] /\
+      p_txs (w_p ws) = [(3, 2); (5, 3)] /\
+      p_unspent (w_p ws) = [((3, 1), 900%Z)] /\
+      get_next (0, false) (w_p ws) = 2 /\ get_next (0, true) (w_p ws) = 1 /\
+      p_synced (w_p ws) = 5
+  | None => False
+  end /\
+  blocks_after 2 sync_chain =
+    [ (3, [ {| Recovery.t_id := 2; Recovery.t_ins := [(101, 0)]; Recovery.t_outs := [pay (0, false, 1) 5000] |} ]);
+      (4, []);
+      (5, [ {| Recovery.t_id := 3; Recovery.t_ins := [(2, 0)]; Recovery.t_outs := [other 4000; pay (0, true, 0) 900] |} ]) ] /\
+  (* the batches of the two runs: heights 3,4 then 5 *)
+  map (fun f => (fst f, map fst (snd f))) (loop_flushes (heights_to_scan sync_chain 2 4) 4 2 2 []) = [(4, [3; 4])] /\
+  map (fun f => (fst f, map fst (snd f))) (loop_flushes (heights_to_scan sync_chain 4 5) 5 2 2 []) = [(5, [5])].
+Proof. vm_compute. repeat split. Qed.
+
+(** ... and the hypotheses of the theorem hold on it. *)
+Example C16_first_sync_hypotheses_satisfiable :
+  within_window no_inv ex_scopes 2 (blocks_after 2 sync_chain) /\ chain_wf (blocks_after 2 sync_chain).
+Proof.
+  split.
+  - intros pre x post E. change (blocks_after 2 sync_chain) with
+      [ (3, [ {| Recovery.t_id := 2; Recovery.t_ins := [(101, 0)]; Recovery.t_outs := [pay (0, false, 1) 5000] |} ]);
+        (4, @nil Recovery.tx);
+        (5, [ {| Recovery.t_id := 3; Recovery.t_ins := [(2, 0)]; Recovery.t_outs := [other 4000; pay (0, true, 0) 900] |} ]) ] in E.
+    intros k i Hi. unfold paid_on in Hi. apply found_indices_In in Hi.
+    destruct pre as [|x1 pre]; [|destruct pre as [|x2 pre]; [|destruct pre as [|x3 pre]]].
+    + injection E as E1 E2. subst x. simpl in Hi.
+      destruct Hi as [Hi | [] ]; injection Hi as Hk Hi'; subst k i; vm_compute; repeat split; auto 10.
+    + injection E as E1 E2 E3. subst x. simpl in Hi. destruct Hi.
+    + injection E as E1 E2 E3 E4. subst x x1 x2. simpl in Hi.
+      destruct Hi as [Hi | [] ]; injection Hi as Hk Hi'; subst k i; vm_compute; repeat split; auto 10.
+    + exfalso. injection E as E1 E2 E3 E4. destruct pre; discriminate.
+  - split; vm_compute; repeat constructor; simpl; intuition discriminate.
+Qed.
